@@ -2,7 +2,7 @@
    Statements closed by [exact]; the model is coq/KeyDefs.v (KeyTable.cpp, FunctionKey.cpp,
    StylesheetRoot::getNodeSetByKey, Stylesheet::postConstruction as coded). *)
 From Coq Require Import List NArith Bool Arith Lia Sorted.
-Require Import XV.KeyDefs XV.KeyWalk XV.KeyModel XV.KeyHist.
+Require Import XV.GenKey XV.KeyDefs XV.KeyWalk XV.KeyModel XV.KeyHist.
 Import ListNotations.
 
 (* the odd "execute once, then once per attribute" loop of the constructor processes the node,
@@ -17,9 +17,11 @@ Print Assumptions visit_node_then_attributes.
    attribute of every element - exactly once, in document order, for every tree; fuel = number
    of nodes suffices (out-of-fuel excluded) *)
 Theorem walk_visits_each_node_once : forall t fuel, size t <= fuel ->
-  walk fuel t [] [] = Some (doc_nodes t) /\ NoDup (doc_nodes t) /\ ssorted (idx t) (doc_nodes t).
+  walk fuel t [] [] = Some (doc_nodes t) /\ NoDup (doc_nodes t) /\ ssorted (idx t) (doc_nodes t) /\
+  (forall n, In n (doc_nodes t) <-> valid_node t n = true).
 Proof.
-  intros t fuel H. split. exact (walk_size t fuel H). split. exact (doc_nodes_nodup t). exact (doc_nodes_sorted t).
+  intros t fuel H. split. exact (walk_size t fuel H). split. exact (doc_nodes_nodup t).
+  split. exact (doc_nodes_sorted t). exact (doc_nodes_valid t).
 Qed.
 Print Assumptions walk_visits_each_node_once.
 
@@ -67,6 +69,14 @@ Theorem declaration_order_irrelevant : forall ds1 ds2 t name v,
   (forall d, In d ds1 <-> In d ds2) -> key_spec ds1 t name v = key_spec ds2 t name v.
 Proof. exact key_spec_decl_order. Qed.
 Print Assumptions declaration_order_irrelevant.
+
+(* Stylesheet::postConstruction: the merged declaration list holds exactly the declarations of
+   the stylesheets of the import tree; with the two theorems above the answers are the union
+   over all of them, whatever the import structure *)
+Theorem merged_declarations : forall s g,
+  In g (merged s) <-> exists s', in_import_tree s s' /\ In g (own_of s').
+Proof. exact merged_in. Qed.
+Print Assumptions merged_declarations.
 
 (* key() with an undeclared name and a string argument is an error (never a wrong node-set) *)
 Theorem undeclared_key_is_error : forall W decls c d name s, cinv W decls c ->
@@ -173,22 +183,35 @@ Proof. vm_compute. reflexivity. Qed.
 
 Example guards_satisfiable :
   gdeclared (merged sheet0) [a_] = true /\ nodeset_arg_ok (ANodes [[b_]; [a_]]) = true /\
-  nodeset_arg_ok (ANodes [[]]) = true /\ nodeset_arg_ok (ANodes [[b_]; []]) = false.
+  nodeset_arg_ok (ANodes [[]]) = true /\
+  (skip_empty_refs = true -> nodeset_arg_ok (ANodes [[b_]; []]) = false).
 Proof. vm_compute. auto. Qed.
 
 (* FunctionKey.cpp:170 skips empty string-values when the node-set argument has more than one
-   node: the nodes whose key value is "" are missing from the union *)
-Theorem key_nodeset_arg_spec_refuted :
+   node: the nodes whose key value is "" are missing from the union.  GenKey.skip_empty_refs is
+   regenerated from FunctionKey.cpp on every run and says whether the source still has that test. *)
+Theorem key_nodeset_arg_spec_refuted : skip_empty_refs = true ->
   exists W decls d name vs, gdeclared decls name = true /\
     snd (function_key W decls [] d name (ANodes vs)) <>
     Nodes (key_spec_set (map (view d) decls) (wdoc W d) name vs).
 Proof.
-  exists [doc0; doc1], (merged sheet0), 0, [a_], [[b_]; []]. split. reflexivity.
-  vm_compute. intro H. discriminate H.
+  intro H. exists [doc0; doc1], (merged sheet0), 0, [a_], [[b_]; []]. split. reflexivity.
+  revert H. vm_compute. intros H E. first [discriminate E | discriminate H].
 Qed.
 Print Assumptions key_nodeset_arg_spec_refuted.
 
-Example refuted_witness_values :
+Example refuted_witness_values : skip_empty_refs = true ->
   snd (function_key [doc0; doc1] (merged sheet0) [] 0 [a_] (ANodes [[b_]; []])) = Nodes [x0k] /\
   key_spec_set (map (view 0) (merged sheet0)) doc0 [a_] [[b_]; []] = [x0; x0k; txt0].
-Proof. vm_compute. auto. Qed.
+Proof. vm_compute. intro H. first [discriminate H | auto]. Qed.
+
+(* and once the source no longer has the test, the full statement holds *)
+Theorem key_nodeset_arg_spec_when_unguarded : skip_empty_refs = false ->
+  forall W decls c d name vs, cinv W decls c -> gdeclared decls name = true ->
+  snd (function_key W decls c d name (ANodes vs)) = Nodes (key_spec_set (map (view d) decls) (wdoc W d) name vs).
+Proof.
+  intros Hs W decls c d name vs Hc H. apply key_nodeset_arg_spec_partial; auto.
+  unfold nodeset_arg_ok. rewrite Hs. apply orb_true_iff. right.
+  induction vs as [|v r IH]; simpl; auto.
+Qed.
+Print Assumptions key_nodeset_arg_spec_when_unguarded.
